@@ -608,3 +608,79 @@ Theorem one_sided_weight_refuted :
 Proof.
   split; [vm_compute; reflexivity|]. split; [apply gmask_disciplined_b_sound; vm_compute; reflexivity|]. vm_compute. repeat split.
 Qed.
+
+Local Close Scope Z_scope.
+
+(** * the headline: after a forked assignment, reads allowed by the contract and [revert(mask)] (right-broadcasting), row [j] of EVERY
+      doubly cached node of the forked sub-graph — plain or weighted, whatever its trailing shape — is the forked row where [mask j]
+      holds and the current row elsewhere (value and weight from the same side) *)
+Lemma nselect_rows_selected m old cur r : nselect (true, m) old cur = Some r -> rows_selected m old cur r.
+Proof.
+  intros H. destruct (nselect_inv _ _ _ _ H) as [[o [c [t [-> [-> [Ht ->]]]]]]|[[ov [ow [cv [cw [tv [tw [-> [-> [Hv [Hw ->]]]]]]]]]]|[ov [cv [tv [-> [-> [Hv ->]]]]]]]]; cbn.
+  - exact (twhere_rows _ _ _ _ Ht).
+  - split; [exact (twhere_rows _ _ _ _ Hv)|exact (twhere_rows _ _ _ _ Hw)].
+  - exact (twhere_rows _ _ _ _ Hv).
+Qed.
+
+Theorem partial_revert_nd_rows (l : list dspec) :
+  gwf_b (mk_ngraph l) = true -> entrywise_axis_b l = true ->
+  let g := mk_ngraph l in
+  forall (st : state nval) (i : nat) (o : option nval) (reads : list nat) (m : list bool),
+    Good g st -> mode st <> None -> i < gn g -> settable g i = true -> ind_axis g i = true ->
+    (forall r, In r reads -> axis_read_ok g i r) ->
+    let st1 := fst (set_state g true st i o) in
+    let st2 := gets g st1 reads in
+    shapes_ok g nsem (true, m) i (values st) (values st2) ->
+    let st3 := fst (revert_mask_state nsem st2 (true, m)) in
+    forall j old cur r, In j (i :: desc g i) -> values st j = Some old -> values st2 j = Some cur -> values st3 j = Some r ->
+      rows_selected m old cur r.
+Proof.
+  intros W U g st i o reads m HG Hm Hi Hs Ha Hr st1 st2 Hsh st3 j old cur r Hj Eo Ec Er.
+  destruct (partial_revert_nd l W U st i o reads (true, m) HG Hm Hi Hs Ha Hr Hsh) as [_ [Hv _]].
+  specialize (Hv j Hj). fold g st1 st2 st3 in Hv. rewrite Eo, Ec, Er in Hv. apply nselect_rows_selected. now symmetry.
+Qed.
+
+(** * the same for histories with scoped blocks [with state.auto_fork(m): ...] on n-d graphs (StateScoped.v is generic in the value type):
+      in every store the execution goes through, a read that returns a value returns the from-scratch evaluation *)
+From Leaspy Require Import State.StateScoped State.StateScopedProofs State.StateScopedGExec.
+
+Theorem never_stale_scoped_nd (l : list dspec) :
+  gwf_b (mk_ngraph l) = true -> entrywise_axis_b l = true ->
+  forall h, SMaskDisciplined (mk_ngraph l) nsem (init_store (mk_ngraph l)) h ->
+  forall s', In s' (visits (mk_ngraph l) nsem true (init_store (mk_ngraph l)) h) ->
+  forall k i st v, nth_error s' k = Some st ->
+    snd (step_now (mk_ngraph l) nsem s' (Get k i)) = Ok v -> scratch (mk_ngraph l) (values st) i = Some v.
+Proof.
+  intros W U h. exact (scoped_never_stale_now nval nmask nat (mk_ngraph l) nsem (gwf_b_sound _ _ W) h (F_mix_entrywise_nd l U)).
+Qed.
+
+(** the decided precondition of a history with blocks, for any value type *)
+Lemma gev_ok_b_sound {V M IX} (g : graph V) (sm : sem V M IX) chk (e : event V M IX) :
+  gev_ok_b g sm chk e = true -> ev_ok (op_ok g sm chk) e.
+Proof. destruct e as [s [o| | | |]]; cbn; auto. apply gop_ok_b_sound. Qed.
+
+Lemma gsmask_disciplined_b_sound {V M IX} (g : graph V) (sm : sem V M IX) s h :
+  gsdisciplined_b g sm true false s h = true -> SMaskDisciplined g sm s h.
+Proof.
+  intros H. apply SMaskDisciplined_iff. unfold gsdisciplined_b in H. unfold SDisciplinedWith.
+  rewrite forallb_forall in H. apply Forall_forall. intros e He. apply gev_ok_b_sound. now apply H.
+Qed.
+
+(** x (3, 2); fork REF; x assigned; z read; inside [with auto_fork(None)]: a read, then the assignment of the non-settable z raises and
+    leaves the block; the mode is REF again: x += delta is forked, z read, individuals 1 and 2 rejected: every read is fresh *)
+Local Open Scope Z_scope.
+Definition nd_scoped_ops : list nsop :=
+  [ SPlain (SetMode 0 (Some REF)); SPlain (Set_ 0 0 (Some (NP (mat [[1;5];[2;7];[4;0]])))); SPlain (Get 0 5);
+    SScoped 0 None (nblk [ SPlain (Get 0 6); SPlain (Set_ 0 5 (Some (NP (T0 (AFin 1))))); SPlain (Set_ 0 0 (Some (NP (T0 (AFin 9))))) ]);
+    SLook 0;
+    SPlain (Put 0 0 None (NP (mat [[4;-4];[4;-4];[0;3]])) true); SPlain (Get 0 5); SPlain (RevertMask 0 (true, [false; true; true])) ].
+
+Example nd_scoped_example :
+  SMaskDisciplined (mk_ngraph nd_nodes) nsem (init_store (mk_ngraph nd_nodes)) nd_scoped_ops /\
+  hflat (mk_ngraph nd_nodes) nsem true (init_store (mk_ngraph nd_nodes)) nd_scoped_ops =
+    [ SetMode 0 (Some REF); Set_ 0 0 (Some (NP (mat [[1;5];[2;7];[4;0]]))); Get 0 5;
+      SetMode 0 None; Get 0 6; Set_ 0 5 (Some (NP (T0 (AFin 1)))); SetMode 0 (Some REF);
+      Put 0 0 None (NP (mat [[4;-4];[4;-4];[0;3]])) true; Get 0 5; RevertMask 0 (true, [false; true; true]) ] /\
+  all_fresh nsem (hflat (mk_ngraph nd_nodes) nsem true (init_store (mk_ngraph nd_nodes)) nd_scoped_ops) = true.
+Proof. split; [apply gsmask_disciplined_b_sound; vm_compute; reflexivity|]. vm_compute. split; reflexivity. Qed.
+Local Close Scope Z_scope.
